@@ -7,7 +7,7 @@
      3  clauses: for every clause kind and every spelling, [token_at] on the printed clause returns that clause's groups
         and stops exactly at its end (every earlier alternative fails);
      4  entries: induction over the clause list. *)
-From Coq Require Import NArith List Bool Lia Arith ZifyBool ZifyN ZifyNat.
+From Coq Require Import NArith List Bool Lia Arith ZifyBool ZifyN ZifyNat Permutation.
 Import ListNotations.
 Require Import SR.Base.Res SR.Gen.ClausesParams SR.Spec.Clauses SR.Model.Clauses.
 Open Scope N_scope.
@@ -1795,4 +1795,176 @@ Proof.
   assert (E : forall s, items_ok cs s = true -> lookup 7 (expected cs s) = lookup 7 (abstract cs)).
   { intros s Is. rewrite <- (expected_content cs s Is), lookup_normal. destruct (lookup 7 (expected cs s)); reflexivity. }
   rewrite (E sps I), (E sps' I'). reflexivity.
+Qed.
+
+(* ================================================================ respelling with the clauses in another order *)
+Lemma lookup_notin k d : ~ In k (map fst d) -> lookup k d = None.
+Proof.
+  induction d as [|kv d IH]; intros H; [reflexivity|]. change (kv :: d) with ([kv] ++ d). rewrite lookup_app.
+  cbn [map In] in H. rewrite IH by tauto. unfold lookup. cbn [fold_left].
+  destruct (N.eqb_spec (fst kv) k); [exfalso; apply H; left; assumption|reflexivity].
+Qed.
+
+Lemma lookup_in_nodup k v d : NoDup (map fst d) -> In (k, v) d -> lookup k d = Some v.
+Proof.
+  induction d as [|kv d IH]; intros ND I; [destruct I|]. change (kv :: d) with ([kv] ++ d). rewrite lookup_app.
+  cbn [map] in ND. inversion ND as [|x l Nx ND']. subst. destruct I as [->|I].
+  - cbn [fst] in Nx. rewrite (lookup_notin k d Nx). unfold lookup. cbn [fold_left fst snd]. rewrite N.eqb_refl. reflexivity.
+  - rewrite (IH ND' I). reflexivity.
+Qed.
+
+Lemma lookup_some_in k v d : lookup k d = Some v -> In (k, v) d.
+Proof.
+  induction d as [|kv d IH]; [discriminate|]. change (kv :: d) with ([kv] ++ d). rewrite lookup_app.
+  destruct (lookup k d) as [v'|] eqn:E.
+  - intros H. injection H as ->. right. apply IH. reflexivity.
+  - unfold lookup. cbn [fold_left]. destruct (N.eqb_spec (fst kv) k); [|discriminate]. intros H. injection H as <-. left. destruct kv. cbn [fst snd] in *. subst. reflexivity.
+Qed.
+
+Lemma lookup_perm k d d' : Permutation d d' -> NoDup (map fst d) -> lookup k d = lookup k d'.
+Proof.
+  intros P ND. assert (ND' : NoDup (map fst d')) by (apply (Permutation_NoDup (Permutation_map fst P)); exact ND).
+  destruct (lookup k d) as [v|] eqn:E.
+  - symmetry. apply lookup_in_nodup; [exact ND'|]. apply (Permutation_in _ P). apply lookup_some_in. exact E.
+  - destruct (lookup k d') as [v'|] eqn:E'; [|reflexivity].
+    apply lookup_some_in in E'. apply (Permutation_in _ (Permutation_sym P)) in E'. rewrite (lookup_in_nodup k v' d ND E') in E. discriminate.
+Qed.
+
+Definition kind_of_key (k : N) : N :=
+  match k with
+  | 13 | 14 => 0 | 0 => 1 | 3 | 4 | 5 | 6 => 2 | 7 => 3 | 11 => 4 | 12 => 5 | 1 => 6 | 2 => 7 | 10 => 8 | 8 | 9 => 9
+  | _ => 99
+  end.
+
+Lemma abs_bindings_kind c kv : In kv (abs_bindings c) -> kind_of_key (fst kv) = kind c.
+Proof.
+  intros I. destruct c; cbn [abs_bindings] in I;
+    repeat match goal with
+           | H : In _ (_ ++ _) |- _ => apply in_app_or in H as [H|H]
+           | H : In _ (match ?x with Some _ => _ | None => _ end) |- _ => destruct x
+           | H : In _ (if ?x then _ else _) |- _ => destruct x
+           | H : In _ (_ :: _) |- _ => destruct H as [H|H]; [subst kv; reflexivity|]
+           | H : In _ [] |- _ => destruct H
+           end.
+Qed.
+
+Lemma abs_bindings_nodup c : NoDup (map fst (abs_bindings c)).
+Proof.
+  destruct c; cbn [abs_bindings];
+    repeat match goal with
+           | |- context [match ?x with Some _ => _ | None => _ end] => destruct x
+           | |- context [if ?x then _ else _] => destruct x
+           end; cbn [map fst app];
+    repeat (constructor; [cbn [In]; intros Q; repeat destruct Q as [Q|Q]; try discriminate; try contradiction|]); constructor.
+Qed.
+
+Lemma nodup_app {A} (a b : list A) : NoDup a -> NoDup b -> (forall x, In x a -> ~ In x b) -> NoDup (a ++ b).
+Proof.
+  intros Na Nb D. induction a as [|x a IH]; [exact Nb|]. inversion Na as [|y l Nx Na']. subst. cbn [app]. constructor.
+  - intros I. apply in_app_or in I as [I|I]; [contradiction|]. apply (D x (or_introl eq_refl) I).
+  - apply IH; [exact Na'|]. intros y Iy. apply D. right. exact Iy.
+Qed.
+
+Lemma s_mem_in x l : In x l -> s_mem x l = true.
+Proof. intros I. unfold s_mem. apply existsb_exists. exists x. split; [exact I|apply N.eqb_refl]. Qed.
+
+Lemma abs_keys_nodup : forall cs, nodup_N (map kind cs) = true -> NoDup (map fst (flat_map abs_bindings cs)).
+Proof.
+  induction cs as [|c cs IH]; intros ND; [constructor|]. cbn [map nodup_N] in ND. apply andb_true_iff in ND as [N1 N2].
+  cbn [flat_map]. rewrite map_app. apply nodup_app; [apply abs_bindings_nodup|apply IH; exact N2|].
+  intros k Ia Ib. apply in_map_iff in Ia as (kv & <- & Ia). apply in_map_iff in Ib as (kv' & E & Ib).
+  apply in_flat_map in Ib as (c' & Ic & Ib).
+  pose proof (abs_bindings_kind c kv Ia) as K1. pose proof (abs_bindings_kind c' kv' Ib) as K2. rewrite E, K1 in K2.
+  apply negb_true_iff in N1. rewrite s_mem_in in N1; [discriminate|]. rewrite K2. apply in_map. exact Ic.
+Qed.
+
+Theorem abstract_perm : forall cs cs', Permutation cs cs' -> nodup_N (map kind cs) = true -> abstract cs = abstract cs'.
+Proof.
+  intros cs cs' P ND. unfold abstract, sorted. apply flat_map_ext. intros k.
+  rewrite (lookup_perm k _ _ (Permutation_flat_map abs_bindings P) (abs_keys_nodup cs ND)). reflexivity.
+Qed.
+
+Theorem respelling : forall cs cs' sps sps' r r', Permutation cs cs' -> printable cs sps = true -> printable cs' sps' = true ->
+  clause_dict (print_items cs sps) = Some (Ok r) -> clause_dict (print_items cs' sps') = Some (Ok r') ->
+  normal (codes (cr_dict r)) = normal (codes (cr_dict r')) /\ cr_parsed r = cr_parsed r'.
+Proof.
+  intros cs cs' sps sps' r r' Pm P P' H H'. rewrite (clause_dict_printer cs sps P) in H. rewrite (clause_dict_printer cs' sps' P') in H'.
+  destruct (result_for_ok _ _ H) as [D Q]. destruct (result_for_ok _ _ H') as [D' Q'].
+  unfold printable in P, P'. apply andb_true_iff in P as [ND I]. apply andb_true_iff in P' as [_ I'].
+  rewrite D, D', !codes_gmap by apply sorted_codes. rewrite (expected_content cs sps I), (expected_content cs' sps' I').
+  pose proof (abstract_perm cs cs' Pm ND) as E. split; [exact E|]. rewrite Q, Q'.
+  assert (L : forall c s, items_ok c s = true -> lookup 7 (expected c s) = lookup 7 (abstract c)).
+  { intros c s Is. rewrite <- (expected_content c s Is), lookup_normal. destruct (lookup 7 (expected c s)); reflexivity. }
+  rewrite (L cs sps I), (L cs' sps' I'), E. reflexivity.
+Qed.
+
+(* ================================================================ DDE naming on a recognised entry *)
+Lemma lookup_sorted_13 d : lookup 13 (sorted d) = lookup 13 d.
+Proof.
+  unfold sorted, key_codes. cbn [flat_map]. rewrite !lookup_app, !lookup_piece. cbn [N.eqb Pos.eqb]. rewrite app_nil_r || idtac.
+  unfold lookup at 1. cbn [fold_left]. destruct (lookup 13 d); reflexivity.
+Qed.
+
+Lemma lookup_sorted_14 d : lookup 14 (sorted d) = lookup 14 d.
+Proof.
+  unfold sorted, key_codes. cbn [flat_map]. rewrite !lookup_app, !lookup_piece. cbn [N.eqb Pos.eqb]. rewrite app_nil_r || idtac.
+  unfold lookup at 1. cbn [fold_left]. destruct (lookup 14 d); reflexivity.
+Qed.
+
+Lemma bindings_no_name c sp kv : is_name_clause c = false -> In kv (bindings c sp) -> fst kv <> 13 /\ fst kv <> 14.
+Proof.
+  intros Nn I. destruct c; cbn [is_name_clause bindings] in *; try discriminate;
+    repeat match goal with
+           | H : In _ (_ ++ _) |- _ => apply in_app_or in H as [H|H]
+           | H : In _ (match ?x with Some _ => _ | None => _ end) |- _ => destruct x
+           | H : In _ (if ?x then _ else _) |- _ => destruct x
+           | H : In _ (_ :: _) |- _ => destruct H as [H|H]; [subst kv; cbn [fst]; split; discriminate|]
+           | H : In _ [] |- _ => destruct H
+           end.
+Qed.
+
+Lemma all_bindings_no_name : forall cs sps k, existsb is_name_clause cs = false -> (k = 13 \/ k = 14) -> lookup k (all_bindings cs sps) = None.
+Proof.
+  intros cs sps k E K. apply lookup_notin. intros I. apply in_map_iff in I as (kv & Ek & I).
+  revert sps I. induction cs as [|c cs IH]; intros sps I; [destruct I|]. cbn [existsb] in E. apply orb_false_iff in E as [E1 E2].
+  cbn [all_bindings] in I. apply in_app_or in I as [I|I]; [|apply (IH E2 _ I)].
+  destruct (bindings_no_name c _ kv E1 I). destruct K; congruence.
+Qed.
+
+Lemma model_str_eqb_eq a b : SR.Model.Clauses.str_eqb a b = true -> a = b.
+Proof.
+  revert b. induction a as [|x a IH]; intros [|y b] H; try discriminate; [reflexivity|].
+  cbn [SR.Model.Clauses.str_eqb] in H. apply andb_true_iff in H as [H1 H2]. apply N.eqb_eq in H1. subst. f_equal. apply IH. exact H2.
+Qed.
+
+Lemma cased_upper : forall w m, existsb (fun b : bool => b) (firstn (length w) m) = false -> cased m w = w.
+Proof.
+  induction w as [|x w IH]; intros m H; [reflexivity|]. destruct m as [|b m]; cbn [cased hd tl].
+  - f_equal. apply IH. destruct (length w); reflexivity.
+  - cbn [length firstn existsb] in H. apply orb_false_iff in H as [-> H]. f_equal. apply IH. exact H.
+Qed.
+
+Theorem naming : forall cs sps r, in_domain cs sps = true -> clause_dict (print_items cs sps) = Some (Ok r) ->
+  dde_unique (cr_dict r) = spec_unique_name cs.
+Proof.
+  intros cs sps r Dm H. unfold in_domain in Dm. apply andb_true_iff in Dm as [P FU].
+  rewrite (clause_dict_printer cs sps P) in H. destruct (result_for_ok _ _ H) as [D _]. rewrite D.
+  unfold printable in P. apply andb_true_iff in P as [_ I].
+  unfold dde_unique, dde_name. rewrite !get_gmap by apply sorted_codes.
+  change (key_code KName) with 14. change (key_code KFiller) with 13. unfold expected. rewrite lookup_sorted_14, lookup_sorted_13.
+  destruct cs as [|c cs]; [reflexivity|].
+  cbn [items_ok] in I. apply andb_true_iff in I as [I _]. apply andb_true_iff in I as [I I3]. apply andb_true_iff in I as [I1 _].
+  apply negb_true_iff in I3. cbn [all_bindings]. rewrite !lookup_app.
+  rewrite (all_bindings_no_name cs (tl sps) 14 I3) by tauto. rewrite (all_bindings_no_name cs (tl sps) 13 I3) by tauto.
+  destruct (is_name_clause c) eqn:Nc.
+  - destruct c; try discriminate; cbn [bindings spec_unique_name].
+    + unfold lookup at 1. cbn [fold_left fst snd N.eqb Pos.eqb].
+      unfold clause_ok in I1. apply andb_true_iff in I1 as [_ I1]. destruct (name_ok_parts n I1) as (_ & _ & Rn & _).
+      destruct (SR.Model.Clauses.str_eqb n W_FILLER) eqn:E; [|reflexivity].
+      apply model_str_eqb_eq in E. subst n. vm_compute in Rn. discriminate.
+    + unfold lookup. cbn [fold_left fst snd N.eqb Pos.eqb]. cbn [filler_upper] in FU. apply negb_true_iff in FU.
+      unfold kw. rewrite (cased_upper K_FILLER _ FU). reflexivity.
+  - assert (L : forall k, k = 13 \/ k = 14 -> lookup k (bindings c (fst (hd sp_default sps))) = None).
+    { intros k K. apply lookup_notin. intros Q. apply in_map_iff in Q as (kv & Ek & Q). destruct (bindings_no_name c _ kv Nc Q). destruct K; congruence. }
+    rewrite (L 14) by tauto. rewrite (L 13) by tauto. destruct c; try discriminate; reflexivity.
 Qed.
